@@ -54,7 +54,15 @@ def run (lines : Array String) : IO Report := do
                           ev := { op := op, inv := (geti "inv").toNat, resp := (geti "resp").toNat, out := out } }
         let pfx := if mix == "c05" then "C05" else "C04"
         if state == "err" then
-          diff rep ln "oracle" s!"case={cid} key={pfx}/operation-error an operation on key {key.take 24} ended in an error: {l.take 160}"
+          -- a get of a client running BESIDE a GC pass (cl ≠ 0; the final reads are client 0) that fails because the pass has
+          -- removed the file, or is overwriting the bytes, its position pointed at: the two transient error replies
+          -- reproduced step by step by engine concgc (schedules stale-reader, inplace)
+          let ec := (kvOpt opts "errclass").getD "other"
+          let cl := (geti "cl").toNat
+          let sub := if mix == "c05" && opc == "r" && cl ≠ 0 && ec == "nofile" then "/get-beside-pass-file-removed"
+                     else if mix == "c05" && opc == "r" && cl ≠ 0 && ec == "decode" then "/get-beside-pass-bytes-overwritten"
+                     else ""
+          diff rep ln "oracle" s!"case={cid} key={pfx}/operation-error{sub} an operation on key {key.take 24} ended in an error: {l.take 160}"
         if opc == "r" && (geti "val") < 0 then
           diff rep ln "oracle" s!"case={cid} key={pfx}/foreign-value a read of key {key.take 24} returned bytes no client wrote: {l.take 160}"
         ok rep
